@@ -115,12 +115,14 @@ TYPED_P = 0.06
 
 HISTORY = None
 HISTORY_P = 0.15
+EXPLAIN = True          # explain() inside offline prehistories (C20 switches it off: it reads the explanations)
 REPARSE = True          # C20 switches it off: explain() also reports on the assertions of earlier parse() calls
 LAST_HISTORY = []
 
 
 def begin_case(rng, reparse=True, struct=True, typed=True):
-    global HISTORY, REPARSE, STRUCT, TYPED
+    global HISTORY, REPARSE, STRUCT, TYPED, EXPLAIN
+    EXPLAIN = reparse
     HISTORY = rng if os.environ.get('RTVERIF_HISTORY', '1') != '0' else None
     STRUCT = rng if (struct and os.environ.get('RTVERIF_STRUCT', '1') != '0') else None
     TYPED = rng if (typed and os.environ.get('RTVERIF_TYPED', '1') != '0') else None
@@ -219,6 +221,8 @@ class Mon(object):
             self._refused_declaration(hist)
         if hist is not None and kind.startswith('dt') and hist.random() < 0.3:
             self._refused_configuration(hist)
+        if parse and hist is not None and REPARSE and hist.random() < 0.25:
+            self._rejected_parse(hist)
         if parse:
             self.parse()
             if hist is not None and REPARSE and hist.random() < 0.3:
@@ -268,6 +272,33 @@ class Mon(object):
         except Exception:
             pass
         REC.counts['history-raised:redeclaration-not-refused'] += 1
+        self.spec = build_spec(self.kind, sd)
+
+    def _rejected_parse(self, h):
+        """History: before its own text the object was given a text that parse() rejects part-way - an interval whose
+        end bound is an undeclared constant (the begin bound is read first), begin > end, an unbalanced parenthesis -
+        which declares nothing.  A rejected parse() leaves nothing behind.  Never raises."""
+        sd = self.sd
+        if sd.get('subspecs') or not sd.get('vars') or 'const' in sd.get('text', ''):
+            return
+        v = sd['vars'][0]
+        bad = h.choice(['((%s >= 1) unless[0,kq9] (%s <= 2))' % (v, v), '(once[3,kq9] (%s >= 1))' % v,
+                        '(always[1:kq9 s] (%s >= 1))' % v, '(once[2,1] (%s >= 1))' % v, '((%s >= 1) and (once[0,2] (%s <= 3))' % (v, v),
+                        '((%s >= 1) since[2,kq9] (%s <= 3))' % (v, v)])
+        if sd.get('text', '').lstrip().startswith('out ='):
+            bad = 'out = ' + bad
+        own = self.spec.spec
+        try:
+            self.spec.spec = bad
+            self.spec.parse()
+        except RTAMTException:
+            self.spec.spec = own
+            REC.counts['history:rejected-parse'] += 1
+            LAST_HISTORY.append('object #%d: parse() of %r was rejected before its own text was parsed' % (self.oid, bad))
+            return
+        except Exception:
+            pass
+        REC.counts['history-raised:bad-text-not-rejected'] += 1
         self.spec = build_spec(self.kind, sd)
 
     def _refused_configuration(self, h):
@@ -437,6 +468,10 @@ class Mon(object):
                         s.parse()
                         what += ' while its text was %r (its own text parsed again afterwards)' % around[0]
                     s.evaluate(d2)
+                    if EXPLAIN and h.random() < 0.3 and hasattr(s, 'explain'):
+                        # ... and asks for its explanation: explain() reads the specification, it does not change it
+                        s.explain()
+                        what += ', then explain()'
                 finally:
                     if half is not None:
                         s.set_sampling_period(*real)
